@@ -19,6 +19,13 @@ def instance(seed):
     qref = QREF[nfref] * rng.uniform(0.95, 1.05)
     alphas = {3: 0.45, 4: 0.25, 5: 0.118, 6: 0.095}[nfref]
     base = [rng.uniform(1.2, 1.6), rng.uniform(4.0, 5.0), rng.uniform(160.0, 175.0)]
+    on_threshold = None
+    if nfref in (4, 5) and rng.random() < 0.25:
+        # the coupling reference sits exactly on a heavy-quark threshold: alpha_s^(4)(m_b) or alpha_s^(5)(m_b),
+        # with that quark given at its own scale
+        on_threshold = 2
+        qref = base[1]
+        alphas = 0.22
     order = (rng.choice([1, 2, 3, 4]), 0)
     meth = rng.choice([CouplingEvolutionMethod.EXACT, CouplingEvolutionMethod.EXPANDED])
     quarks = []
@@ -27,7 +34,9 @@ def instance(seed):
     for q in (1, 2, 3):
         m = base[q - 1]
         active = q + 3 <= nfref
-        if consistent_bias:
+        if on_threshold == q:
+            rm = "eq"
+        elif consistent_bias:
             rm = rng.choice(["eq", "gt"] if active else ["eq", "lt"]) if rng.random() < 0.9 else rng.choice(["lt", "gt"])
         else:
             rm = rng.choice(["lt", "eq", "gt"])
